@@ -87,4 +87,34 @@ def specFetch (head : Nat) (synced : R) (limit : Nat) (b : Nat × Nat) : Bool :=
 def specFetchExceptHead (head : Nat) (synced : R) (limit : Nat) (b : Nat × Nat) : Bool :=
   (failing head synced limit b).all (fun c => c == "head")
 
+/-! ### the same at the level of `Worker::fetch_next_batch` and of the real store -/
+
+/-- a decision observed on the real `Worker`: no request, or a requested batch together with
+    whether the real store then accepted the honest headers of that batch -/
+inductive WorkerObs where
+  | none
+  | req (b : Nat × Nat) (inserted : Bool)
+  deriving DecidableEq, Repr
+
+/-- clauses failing for a `Worker`-level observation (peers connected, nothing ongoing, every
+    stored header inside the sampling window, no slow-sync height).  `synced` is the union of
+    `stored` and `pruned`.
+    * a requested batch must satisfy (a)–(f) w.r.t. the synced set, must be admitted by the
+      insertion constraints of the STORED ranges ("so that inserting it extends stored data" as
+      the stores check it), and the real store must have accepted it;
+    * no request is allowed only when nothing is missing / batch size 0, or when the height right
+      above the gap to fill is pruned rather than stored (requesting below a pruned edge would
+      not be insertable). -/
+def failingWorker (head : Nat) (stored synced : R) (limit : Nat) : WorkerObs → List String
+  | .req b ins =>
+    (if b.2 < b.1 then ["empty-request"] else failing head synced limit b) ++
+    (if Lumina.Spec.C18.admitted stored b then [] else ["stored-insertable"]) ++
+    (if ins then [] else ["store-rejected"])
+  | .none =>
+    if clauseNoBatch head synced limit then []
+    else if !behind head synced && (match synced.getLast? with
+        | some hr => !member stored hr.1
+        | none => false) then []
+    else ["no-batch"]
+
 end Lumina.Spec.C24
